@@ -283,3 +283,34 @@ func H_C11_SerializeFiles() {
 	}
 	rt.Thaw()
 }
+
+// H_C11_Concurrent: the consequence the property draws: two read-only operations on one shared document at the same
+// time are free of data races. Decided by the lock-set monitor (any unsynchronised store into memory that existed
+// before the two calls started - operands or package-level scratch state - conflicts with the other call).
+func H_C11_Concurrent() {
+	nl := c11list("s", false)
+	other := c11list("o", false)
+	op := func(i int) func() {
+		switch i {
+		case 0:
+			return func() { rt.Call(func() { nl.Equal(other) }) }
+		case 1:
+			return func() { rt.Call(func() { nl.Edges[0].Equal(other.Edges[0]) }) }
+		case 2:
+			return func() { rt.Call(func() { nl.Nodes[0].Equal(other.Nodes[0]); nl.Nodes[0].Checksum() }) }
+		case 3:
+			return func() { rt.Call(func() { nl.Nodes[0].Diff(other.Nodes[0]) }) }
+		case 4:
+			return func() { rt.Call(func() { nl.Union(other); nl.Intersect(other) }) }
+		case 5:
+			return func() { rt.Call(func() { nl.NodeGraph("a"); nl.NodeDescendants("a", 2); nl.GetNodeByID("b") }) }
+		}
+		return func() { rt.Call(func() { nl.Copy() }) }
+	}
+	i := rt.NondetChoice("op1", 7)
+	j := rt.NondetChoice("op2", 7)
+	if j < i {
+		return
+	}
+	rt.Par2("C11.race", op(i), op(j))
+}
